@@ -174,7 +174,7 @@ static bool synthCore(NifFile& nif, const std::string& type, const std::string& 
 					  const std::vector<std::pair<int, long long>>& overrides) {
 	nif.Create(synthVersion(ver));
 	auto& hdr = nif.GetHeader();
-	// reference targets: root + two more nodes; three header strings
+	// reference targets: root + two more nodes; five header strings
 	for (int i = 0; i < 2; i++) {
 		auto n = std::make_unique<NiNode>();
 		n->name.get() = i ? "s1" : "s0";
@@ -184,6 +184,10 @@ static bool synthCore(NifFile& nif, const std::string& type, const std::string& 
 	hdr.AddOrFindStringId("s0");
 	hdr.AddOrFindStringId("s1");
 	hdr.AddOrFindStringId("Scene Root");
+	// two more strings that only the synthesised block can refer to: a string reference the block does not enumerate keeps
+	// such an index while the rebuilt table no longer has the string
+	hdr.AddOrFindStringId("only the block's, a");
+	hdr.AddOrFindStringId("only the block's, b");
 	auto fac = NiFactoryRegister::Get().GetFactoryByName(type);
 	if (!fac) return false;
 	Gen gen(seed * 1000003ull + std::hash<std::string>{}(type + ver) % 100000 + mode, mode);
@@ -191,7 +195,7 @@ static bool synthCore(NifFile& nif, const std::string& type, const std::string& 
 	gen.boostVal = boostVal;
 	gen.overrides = overrides;
 	gen.inlineStrings = hdr.GetVersion().File() < V20_1_0_3;
-	gen.nStrings = 3;
+	gen.nStrings = 5;
 	std::istream is(&gen);
 	NiIStream nis(&is, &hdr);
 	verif::Observer* prev = verif::observer;
